@@ -310,14 +310,12 @@ Fixpoint pcmap_from (pr : aparams) (nm : list reg) (P : list acmd) (k : nat) : n
 Definition pcmap (pr : aparams) (P : list acmd) (k : nat) : nat := pcmap_from pr (named P) P k.
 
 (* position of the (first) definition of label l *)
-Fixpoint label_pos_from (P : list acmd) (l : string) (k : nat) : option nat :=
+Fixpoint label_pos (P : list acmd) (l : string) : option nat :=
   match P with
   | [] => None
-  | ALab l' :: r => if String.eqb l' l then Some k else label_pos_from r l (S k)
-  | AIns _ _ _ :: r => label_pos_from r l (S k)
+  | ALab l' :: r => if String.eqb l' l then Some O else option_map S (label_pos r l)
+  | AIns _ _ _ :: r => option_map S (label_pos r l)
   end.
-
-Definition label_pos (P : list acmd) (l : string) : option nat := label_pos_from P l 0.
 
 Definition labels_of (P : list acmd) : list string :=
   flat_map (fun c => match c with ALab l => [l] | _ => [] end) P.
